@@ -37,6 +37,7 @@ type call struct {
 	URI    string `json:"uri,omitempty"`
 	Stages string `json:"stages,omitempty"`
 	Bad    string `json:"bad,omitempty"`
+	Err    string `json:"err,omitempty"` // Stats().Error() as the tracer sees it in Finish
 }
 
 type recTracer struct{ log []call }
@@ -80,6 +81,9 @@ func (r *recTracer) Finish(ctx context.Context, c *app.RequestContext) {
 		}
 	}
 	cl.Stages = strings.Join(present, ",")
+	if e := st.Error(); e != nil {
+		cl.Err = e.Error()
+	}
 	r.log = append(r.log, cl)
 }
 
@@ -143,13 +147,13 @@ const (
 var outcomeNames = []string{"ok", "handler-panic", "malformed-header", "body-too-large", "peer-closes-mid-body", "hijack", "expect-100", "partial-stream-read", "write-error"}
 
 type History struct {
-	Stream   bool   `json:"streaming"`
-	Level    int    `json:"trace_level"`
-	Idle0    bool   `json:"idle_timeout_zero"`
-	Outcomes []int  `json:"outcomes"`
+	Stream   bool     `json:"streaming"`
+	Level    int      `json:"trace_level"`
+	Idle0    bool     `json:"idle_timeout_zero"`
+	Outcomes []int    `json:"outcomes"`
 	Names    []string `json:"outcome_names"`
-	End      string `json:"end"` // "eof", "timeout", "close"
-	Cuts     []int  `json:"cuts"`
+	End      string   `json:"end"` // "eof", "timeout", "close"
+	Cuts     []int    `json:"cuts"`
 }
 
 func terminating(o int) bool {
@@ -287,6 +291,11 @@ func Check(h *History) string {
 			break
 		}
 	}
+	// first an exchange that ends in an error on a connection of its own: the context it used goes
+	// back to the pool and is (most likely) the one the history's first request gets
+	poison := &History{Stream: h.Stream, Level: h.Level, Idle0: h.Idle0, Outcomes: []int{oMalformed}, End: "eof"}
+	ps, _, _, _ := build(poison)
+	serve(poison, ps, -1)
 	log, res := serve(h, stream, failAfter)
 	if res.Panic != nil {
 		return fmt.Sprintf("panic: %v\n%s", res.Panic, res.Stack)
@@ -328,6 +337,11 @@ func Check(h *History) string {
 			if f.URI != targets[i] || f.Method != methods[i] {
 				return fmt.Sprintf("pair #%d: Finish carries %s %q, the request handled in this pair is %s %q: %s", i, f.Method, f.URI, methods[i], targets[i], desc)
 			}
+		}
+		// the error a Finish carries is that of its own exchange: a request that was served without
+		// any error must not show the error of an earlier exchange that used the same (pooled) context
+		if i < len(h.Outcomes) && h.Outcomes[i] == oOK && f.Err != "" {
+			return fmt.Sprintf("pair #%d: request %s %q was served without error, but the tracer's Finish sees Stats().Error()=%q (left over from an earlier exchange on the recycled context): %s", i, f.Method, f.URI, f.Err, desc)
 		}
 	}
 	return ""
